@@ -208,6 +208,54 @@ fn run_morphemes(run: &mut Run, first_idx: usize, count: usize) {
         };
         let warm: Vec<String> = if rng.chance(1, 2) { (0..1 + rng.below(3)).map(|_| gen_text(&mut rng, w, 20)).collect() } else { vec![] };
         run.bump(&format!("morphc:mode-{:?}:subset-{}", mode, match subset { None => "all".to_string(), Some(s) => format!("{:#x}", s.bits()) }));
+        // the SECOND route to morphemes: `MorphemeList::lookup` (Python `Dictionary.lookup`).  Its results are morphemes of the
+        // QUERY; the same clause holds for them: begin_c()/end_c() count the code points before begin()/end() and slicing the
+        // query by code points gives surface().  Queries: a dictionary key as it is, and de-normalised spellings of it (upper
+        // case / full-width letters and digits, a ligature in front) whose normalised form has another byte length - the
+        // unchanged look-up runs no input-text plugin, so these find nothing unless the lexicon lists the spelling itself;
+        // whatever IS returned has to satisfy the clause (oracle only).
+        if k % 4 == 1 {
+            let key = rng.pick(&w.lex.rows).surface.clone();
+            let wide: String = key.chars().map(|c| match c { 'a'..='z' => char::from_u32(c as u32 - 'a' as u32 + 0xFF21).unwrap(), '0'..='9' => char::from_u32(c as u32 - '0' as u32 + 0xFF10).unwrap(), _ => c }).collect();
+            let upper: String = key.to_uppercase();
+            for (kind, query) in [("key", key.clone()), ("full-width", wide), ("upper-case", upper), ("ligature-in-front", format!("㍿{}", key)), ("key-after-text", text.clone())] {
+                if query.is_empty() { continue; }
+                let r = catch(|| {
+                    let mut ml = sudachi::analysis::mlist::MorphemeList::empty(&w.dic);
+                    if !warm.is_empty() {
+                        let mut tok = sudachi::analysis::stateful_tokenizer::StatefulTokenizer::new(&w.dic, mode);
+                        tok.reset().push_str(&warm[0]);
+                        if tok.do_tokenize().is_ok() { let _ = ml.collect_results(&mut tok); }
+                        ml.clear();
+                    }
+                    let n = ml.lookup(&query, subset.unwrap_or(InfoSubset::all())).map_err(|e| crate::dict::err_class(&e))?;
+                    let mut res = vec![];
+                    for i in 0..ml.len() { let m = ml.get(i); res.push((m.begin(), m.end(), m.begin_c(), m.end_c(), m.surface().to_string())); }
+                    Ok::<_, String>((n, res))
+                });
+                match r {
+                    Err(p) => {
+                        if p.contains("18446744073709551615") || p.contains("char boundary") || p.contains("when slicing") || p.contains("byte index") || p.contains("out of range") || p.contains("out of bounds") {
+                            run.fail(idx, "c08:lookup:accessor-panic", &format!("an offset accessor of a result of lookup({:?}) panics: {}", query, p.chars().take(200).collect::<String>()));
+                        } else { run.bump("lookup:panic(C03's business)"); }
+                    }
+                    Ok(Err(e)) => run.bump(&format!("lookup:err:{}", e)),
+                    Ok(Ok((n, res))) => {
+                        run.bump(&format!("lookup:{}:found-{}", kind, n.min(3)));
+                        for (i, (b, e, bc, ec, sf)) in res.iter().enumerate() {
+                            if *b > query.len() || *e > query.len() || b > e || !query.is_char_boundary(*b) || !query.is_char_boundary(*e) { continue; } // C01's clause
+                            let (wb, we) = (query[..*b].chars().count(), query[..*e].chars().count());
+                            let by_cp: String = query.chars().skip(*bc).take(ec.saturating_sub(*bc)).collect();
+                            if *bc != wb || *ec != we || &by_cp != sf || sf != &query[*b..*e] {
+                                run.fail(idx, "c08:lookup:slice-agree", &format!("result {} of lookup({:?}): bytes {}..{} = code points {}..{}, begin_c()/end_c() report {}..{}; the query sliced by code points is {:?}, by bytes {:?}, surface() is {:?}",
+                                    i, query, b, e, wb, we, bc, ec, by_cp, &query[*b..*e], sf));
+                                break;
+                            }
+                        }
+                    }
+                }
+            }
+        }
         let a = match analyse_with(&w.dic, &warm, &text, mode, subset) {
             Ok(Ok(a)) => a,
             Ok(Err(e)) => { run.bump(&format!("morphc:err:{}", e)); continue; }
